@@ -1,5 +1,6 @@
 import CalVerif.Prim.Wire
 import CalVerif.Model.Formats
+import CalVerif.Model.FormatsDecode
 import CalVerif.Spec.NumFmt
 /-! Driver for C10 (number formats).  One request line → one reply line.
 
@@ -19,6 +20,12 @@ import CalVerif.Spec.NumFmt
                                  → one result letter per XF (`Formats.xlsxStyles/xlsbStyles/xlsStyles`), or `panic`;
                                    defs = `id:hexfmt,…` (or `-`), xfs = `id,…` (or `-`); for xlsx the ids are sent to
                                    the model as their decimal text, as the reader sees them
+    xlsxf <hex payload>          → ok:<ifmt> | err                               (`Formats.xlsParseXf`)
+    xlsfmt <hex payload>         → ok:<ifmt>:<O|D|T> | err                       (`Formats.xlsParseFormat` + `detect`)
+    xlsstream <hex stream>       → class letters of `self.formats` | err:…       (`Formats.xlsStylesOfStream`)
+    xlsbstyles <hex part>        → class letters | err:…                         (`Formats.xlsbStylesOfBytes`)
+    xlsxstyles <event> <event> … → class letters | err:…                         (`Formats.xlsxStylesOfEvents`)
+         event = `s:<name>:<k>=<hex>,…` | `e:<name>` | `t:<hex>` | `c:<hex>` | `o`  (`:` in names written `.`)
     xlsxcell <class letters of the XF table> <hex of the s attribute | absent>
                                  → D | T | N (plain number: class Other or index past the table)   (`Formats.xlsxCellFormat`)
     sweepids <prefix hex> <suffix hex> <lo> <hi>
@@ -151,6 +158,24 @@ def stylesReply (r : Res (List CellFormat)) : String :=
   | .panic _ => "panic"
   | .outOfFuel => "fuel"
 
+def evName (s : String) : List Char := s.toList.map fun c => if c == '.' then ':' else c
+
+def parseSEv (w : String) : Option SEv :=
+  match w.splitOn ":" with
+  | ["s", n, a] =>
+    if a == "-" then some (.start (evName n) [])
+    else do
+      let attrs ← (a.splitOn ",").mapM fun kv =>
+        match kv.splitOn "=" with
+        | [k, v] => (Wire.bytesOfHex v).map fun b => (evName k, b)
+        | _ => none
+      pure (.start (evName n) attrs)
+  | ["e", n] => some (.end_ (evName n))
+  | ["t", _] => some .other
+  | ["c", _] => some .other
+  | ["o"] => some .other
+  | _ => none
+
 def handle (line : String) : String :=
   match Wire.words line with
   | ["detect", h] => match charsOfHex h with
@@ -187,6 +212,27 @@ def handle (line : String) : String :=
       else if kind == "xls" then stylesReply (xlsStyles defs xfs)
       else "bad-op"
     | _, _ => "bad-op"
+  | ["xlsxf", h] => match Wire.bytesOfHex h with
+    | some b => match xlsParseXf b with
+      | .ok n => s!"ok:{n}"
+      | _ => "err"
+    | none => "bad-op"
+  | ["xlsfmt", h] => match Wire.bytesOfHex h with
+    | some b => match xlsParseFormat b with
+      | .ok (i, cs) => match detect cs with
+        | .ok f => s!"ok:{i}:{Char.ofNat (letter f).toNat}"
+        | _ => "panic"
+      | _ => "err"
+    | none => "bad-op"
+  | ["xlsstream", h] => match Wire.bytesOfHex h with
+    | some b => stylesReply (xlsStylesOfStream b)
+    | none => "bad-op"
+  | ["xlsbstyles", h] => match Wire.bytesOfHex h with
+    | some b => stylesReply (xlsbStylesOfBytes b)
+    | none => "bad-op"
+  | "xlsxstyles" :: evs => match evs.mapM parseSEv with
+    | some evs => stylesReply (xlsxStylesOfEvents evs)
+    | none => "bad-op"
   | ["xlsxcell", tbl, sattr] =>
     let fmts : List CellFormat := tbl.toList.filterMap fun c =>
       if c == 'D' then some .dateTime else if c == 'T' then some .timeDelta else if c == 'O' then some .other else none
